@@ -57,6 +57,10 @@ public:
   void compress(const cpc_sketch_alloc<A>& source, compressed_state<A>& target) const;
   void uncompress(const compressed_state<A>& source, uncompressed_state<A>& target, uint8_t lg_k, uint32_t num_coupons) const;
 
+  // throws if the sizes read from an image are larger than those of any image of a sketch with this lg_k
+  static void check_compressed_sizes(uint8_t lg_k, uint32_t num_coupons, uint32_t table_num_entries,
+      uint32_t table_data_words, uint32_t window_data_words);
+
   // methods below are public for testing
 
   // This returns the number of compressed words that were actually used. It is the caller's
